@@ -101,14 +101,28 @@ func For[V any](
 	return func(c *co[V], k cont[V]) {
 		var loop func(skipPost bool)
 		loop = func(skipPost bool) {
-			if post != nil && !skipPost {
-				post()
-			}
-			if cond == nil || cond() {
+			// trampoline: iterations whose body completes without yielding
+			// continue in this frame instead of recursing through the continuation,
+			// so the stack does not grow with the number of iterations between yields
+			for {
+				if post != nil && !skipPost {
+					post()
+				}
+				skipPost = false
+				if cond != nil && !cond() {
+					k(kNormal, zero[V]())
+					return
+				}
+				inBody := true // body has not returned yet
+				again := false // body completed (normal/continue) before returning
 				body(c, func(t contType, v V) {
 					switch t {
 					case kNormal, kContinue:
-						loop(false)
+						if inBody {
+							again = true
+						} else {
+							loop(false) // resumed after a yield, on a fresh stack
+						}
 					case kBreak:
 						k(kNormal, zero[V]())
 					case kReturn:
@@ -117,8 +131,10 @@ func For[V any](
 						panic("unreachable")
 					}
 				})
-			} else {
-				k(kNormal, zero[V]())
+				inBody = false
+				if !again {
+					return
+				}
 			}
 		}
 		loop(true)
